@@ -301,3 +301,66 @@ Qed.
 Theorem C11_add_transactional_lemma st f e :
   add_dcm st f = Err e -> step st (OAdd f) = (st, Err e).
 Proof. intros H. simpl. rewrite H. reflexivity. Qed.
+
+(* ------------------------------------------------------------------------------------------ *)
+(** * Uneven representation of slice positions / vector values *)
+
+From DV Require Import Stack.ProofsCount.
+
+Definition occ_pos (p : Qc) (fs : list file) : nat := length (filter (fun f => qc_eqb (f_pos f) p) fs).
+Definition occ_vec (cv : bool) (v : option Qc) (fs : list file) : nat :=
+  length (filter (fun f => oq_eqb (base_vec cv f) v) fs).
+
+Lemma filter_map_length {A B} (h : A -> B) (p : B -> bool) (l : list A) :
+  length (filter p (map h l)) = length (filter (fun x => p (h x)) l).
+Proof. induction l as [|x xs IH]; simpl; [reflexivity|]. destruct (p (h x)); simpl; rewrite IH; reflexivity. Qed.
+
+Lemma grid_ok_counts (h : file -> tuple) cv fs S T V :
+  (forall f, t_pos (h f) = f_pos f) -> (forall f, t_vec (h f) = base_vec cv f) ->
+  grid_ok (map h fs) S T V ->
+  (forall p, In p (map f_pos fs) -> occ_pos p fs = V * T) /\
+  (forall v, In v (map (base_vec cv) fs) -> occ_vec cv v fs = T * S).
+Proof.
+  intros Hp Hv Hg. split.
+  - intros p Hin. unfold occ_pos.
+    rewrite <- (grid_ok_pos_count _ S T V p Hg).
+    + rewrite filter_map_length. f_equal. apply filter_ext. intros f. rewrite Hp. reflexivity.
+    + rewrite map_map. rewrite (map_ext _ _ Hp). exact Hin.
+  - intros v Hin. unfold occ_vec.
+    rewrite <- (grid_ok_vec_count _ S T V v Hg).
+    + rewrite filter_map_length. f_equal. apply filter_ext. intros f. rewrite Hv. reflexivity.
+    + rewrite map_map. rewrite (map_ext _ _ Hv). exact Hin.
+Qed.
+
+Lemma grid_complete_counts ct cv fs S T V :
+  grid_complete ct cv fs S T V ->
+  (forall p, In p (map f_pos fs) -> occ_pos p fs = V * T) /\
+  (forall v, In v (map (base_vec cv) fs) -> occ_vec cv v fs = T * S).
+Proof.
+  unfold grid_complete. destruct (ct || cv) eqn:Hex.
+  - apply grid_ok_counts; intros f; reflexivity.
+  - apply orb_false_iff in Hex. destruct Hex as [-> ->].
+    intros [[_ Hg] | [_ [k [_ [_ Hg]]]]]; revert Hg; apply grid_ok_counts; intros f; reflexivity.
+Qed.
+
+Theorem C11_positions_lemma st p q :
+  reachable st -> well_typed st ->
+  In p (map f_pos (files st)) -> In q (map f_pos (files st)) ->
+  occ_pos p (files st) <> occ_pos q (files st) ->
+  snd (get_shape st) = Err EInvalidStack.
+Proof.
+  intros Hr Hwt Hp Hq Hne. apply C11_refuse_lemma; try assumption. intros S T V Hg.
+  destruct (grid_complete_counts _ _ _ _ _ _ Hg) as [Hc _].
+  apply Hne. rewrite (Hc p Hp), (Hc q Hq). reflexivity.
+Qed.
+
+Theorem C11_vectors_lemma st v w :
+  reachable st -> well_typed st ->
+  In v (map (base_vec (cfg_vec st)) (files st)) -> In w (map (base_vec (cfg_vec st)) (files st)) ->
+  occ_vec (cfg_vec st) v (files st) <> occ_vec (cfg_vec st) w (files st) ->
+  snd (get_shape st) = Err EInvalidStack.
+Proof.
+  intros Hr Hwt Hv Hw Hne. apply C11_refuse_lemma; try assumption. intros S T V Hg.
+  destruct (grid_complete_counts _ _ _ _ _ _ Hg) as [_ Hc].
+  apply Hne. rewrite (Hc v Hv), (Hc w Hw). reflexivity.
+Qed.
